@@ -38,6 +38,11 @@ OPS = {
                   ("trait Bytes", NEED % "Bytes", False),
                   ("trait Borrow", NEED % "std::borrow::Borrow<[u8]>", False),
                   ("to_vec", "let v: Vec<u8> = r.to_vec(); std::hint::black_box(v.len());", False),
+                  # traits that read the bytes on the caller's behalf
+                  ("trait Serialize", NEED % "serde::Serialize", False),
+                  ("serde_json", "let s = serde_json::to_string(&r); std::hint::black_box(s.is_ok());", False),
+                  ("trait Debug", NEED % "std::fmt::Debug", False),
+                  ("trait PartialEq", NEED % "PartialEq", False),
                   ("iter", "for b in r.iter() { std::hint::black_box(b); }", False)],
     "mut_view": [("as_mut_slice", "r.as_mut_slice()[0] = 1;", True),
                  ("index_assign", "r[0] = 1;", True),
@@ -115,7 +120,7 @@ def run(tier):
     os.makedirs(os.path.join(wd, "src", "bin"))
     os.makedirs(os.path.join(wd, ".cargo"))
     open(os.path.join(wd, "Cargo.toml"), "w").write(
-        '[package]\nname = "c20gen"\nversion = "0.0.0"\nedition = "2021"\n[workspace]\n[dependencies]\ndryoc = { path = "/repo", features = ["nightly"] }\nzeroize = "1.6"\n')
+        '[package]\nname = "c20gen"\nversion = "0.0.0"\nedition = "2021"\n[workspace]\n[dependencies]\ndryoc = { path = "/repo", features = ["nightly", "serde"] }\nzeroize = "1.6"\nserde = "1.0"\nserde_json = "1.0"\n')
     open(os.path.join(wd, ".cargo", "config.toml"), "w").write("[net]\noffline = true\n")
     # the pinned dependency versions: the repository's lock file, or the harness's copy of it
     shutil.copy("/repo/Cargo.lock" if os.path.exists("/repo/Cargo.lock") else os.path.join(HARNESS, "Cargo.lock"), os.path.join(wd, "Cargo.lock"))
@@ -213,6 +218,18 @@ def run(tier):
                         "program": open(os.path.join(wd, "src", "bin", n + ".rs")).read()})
         elif rc != 0:
             ck.fail("permitted program faults at run time: %s" % n, {"cell": cells[n], "exit": rc, "output": out[-500:]})
+    # ... and again built with the optimised profile (debug assertions and overflow checks off)
+    rc, out = sh(["cargo", "+nightly", "build", "--release", "--offline", "--target-dir", tgt] + sum([["--bin", n] for n in runnable], []), cwd=wd, timeout=3000)
+    if rc != 0:
+        raise ToolError("building the control programs (release) failed:\n%s" % out[-3000:])
+    for n in runnable:
+        rc, out = sh([os.path.join(tgt, "release", n)], timeout=60)
+        ran += 1
+        if cells[n]["verdict"] == "Free":
+            if rc < 0 or rc >= 128:
+                ck.fail("[release] a program the compiler accepts faults at run time: %s" % n, {"cell": cells[n], "exit": rc, "output": out[-500:]})
+        elif rc != 0:
+            ck.fail("[release] permitted program faults at run time: %s" % n, {"cell": cells[n], "exit": rc, "output": out[-500:]})
     ck.cov["evaluations"] = nprog + ran
     ck.cov["programs"] = nprog
     ck.cov["controls_run"] = ran
